@@ -711,6 +711,72 @@ pub fn child_time(secs: u64) -> i32 {
     }
 }
 
+/// every day of a range at the first, middle and last second (child process: a stall or an abort
+/// in the calendar conversion must not take the engine with it)
+pub fn child_days(d0: u64, d1: u64) -> i32 {
+    for day in d0..d1 {
+        for sod in [0u64, 43_200, 86_399] {
+            let secs = day * 86_400 + sod;
+            let r = guarded(|| {
+                let mut m = MuxerBuilder::new(Vec::<u8>::new()).video(VideoCodec::H264, 64, 64, 30.0).with_metadata(Metadata::new().with_creation_time(secs)).build().unwrap();
+                let _ = m.finish_in_place_with_stats();
+            });
+            if let Err(p) = r {
+                println!("PANIC {secs} {p}");
+                return 3;
+            }
+        }
+    }
+    0
+}
+
+/// calendar sweep: every day from 1970-01-01 to 9999-12-31 (2 932 897 days), split over 16 children
+fn creation_days(t: &mut Tally) {
+    let exe = std::env::current_exe().expect("exe");
+    let last: u64 = 2_932_897;
+    let n = 16u64;
+    let mut children = vec![];
+    for i in 0..n {
+        let (a, b) = (last * i / n, last * (i + 1) / n);
+        let c = std::process::Command::new(&exe).arg("--c12-days").arg(a.to_string()).arg(b.to_string()).stdout(std::process::Stdio::piped()).stderr(std::process::Stdio::null()).spawn().expect("spawn child");
+        children.push((a, b, c, std::time::Instant::now()));
+    }
+    for (i, (a, b, mut c, started)) in children.into_iter().enumerate() {
+        t.evaluations += (b - a) * 3;
+        let limit = std::time::Duration::from_secs(300);
+        let status = loop {
+            match c.try_wait() {
+                Ok(Some(st)) => break Some(st),
+                Ok(None) => {
+                    if started.elapsed() > limit {
+                        let _ = c.kill();
+                        let _ = c.wait();
+                        break None;
+                    }
+                    std::thread::sleep(std::time::Duration::from_millis(20));
+                }
+                Err(_) => break None,
+            }
+        };
+        match status {
+            None => t.violation("C12/Muxer::finish/creation-day/does-not-terminate", (960_000, i as u64), || format!("finish for the days {a}..{b} since 1970 did not return within 300 s"), || json!({"engine": "E2-c12-days", "from": a, "to": b})),
+            Some(st) if st.code() == Some(3) => {
+                let mut out = String::new();
+                if let Some(mut o) = c.stdout.take() {
+                    use std::io::Read;
+                    let _ = o.read_to_string(&mut out);
+                }
+                let line = out.trim().trim_start_matches("PANIC ");
+                let (secs, msg) = line.split_once(' ').unwrap_or(("0", line));
+                let secs: u64 = secs.parse().unwrap_or(0);
+                report(t, "Muxer::finish/creation-time", msg, (960_000, i as u64), || json!({"engine": "E2-c12-time", "creation_time": secs}));
+            }
+            Some(st) if !st.success() => t.violation("C12/Muxer::finish/creation-day/child-died", (960_000, i as u64), || format!("child for the days {a}..{b} ended with {st:?}"), || json!({"engine": "E2-c12-days", "from": a, "to": b})),
+            _ => {}
+        }
+    }
+}
+
 fn creation_times(t: &mut Tally) {
     let exe = std::env::current_exe().expect("exe");
     let times: Vec<u64> = vec![0, 86399, 1 << 31, 1 << 32, 253402300799, 253402300800, 1 << 40, 1 << 50, 1 << 62, 1 << 63, u64::MAX - 86400, u64::MAX];
@@ -935,6 +1001,7 @@ pub fn check(ctx: &Ctx) -> i32 {
     });
     builder_misc(&mut tally);
     creation_times(&mut tally);
+    creation_days(&mut tally);
     // distinct outcome classes: here the oracle is "no unwind, no stall", so distinctness is
     // counted over entry points x input classes that were exercised
     for (i, (n, _)) in fns.iter().enumerate() {
@@ -948,7 +1015,7 @@ pub fn check(ctx: &Ctx) -> i32 {
         &tally,
         Meta {
             level: "exploration",
-            rule: format!("stateless: {} public entry points of codec::* and validation on (i) all byte strings of length <= 2 over all 256 values (thorough: also length 3 for the header parsers), (ii) all strings of length <= {slen} over four 10-byte boundary alphabets, (iii) all 2^{bits} AV1 sequence-header payloads of {bits} bits and the {n_av1_hdrs} syntactically valid headers of C07's branch product (uvlc escapes, scalable streams) through the parser, a first keyframe + finish and a fragmented init segment, (iv) every truncation, every single and (first 12 bytes) double boundary-byte substitution of {n_ex} valid exemplars; stateful: every Muxer method in 7 lifecycle states (+ after a failed finish) with every argument tuple over a 14-value f64 alphabet, 6 video / 6 audio payload shapes and integer extremes, each followed by finish, over {n_mc} configurations (dimension, frame-rate, sample-rate, channel, title, creation-time and language extremes); FragmentedMuxer: every call sequence of length <= {fdepth} over 70 calls (64 pts/dts pairs over u64 extremes) on {n_fc} FragmentConfig values incl. timescale 0 and empty / 70000-byte parameter sets; builder parameter product; ADTS error values; 12 creation times up to u64::MAX in child processes with a 5 s limit. Oracle: no unwind (catch_unwind, overflow checks and debug assertions on), no stall. distinct_nontrivial counts distinct (stateless entry point, input length class, return class) triples observed plus entry points registered.", fns.len()),
+            rule: format!("stateless: {} public entry points of codec::* and validation on (i) all byte strings of length <= 2 over all 256 values (thorough: also length 3 for the header parsers), (ii) all strings of length <= {slen} over four 10-byte boundary alphabets, (iii) all 2^{bits} AV1 sequence-header payloads of {bits} bits and the {n_av1_hdrs} syntactically valid headers of C07's branch product (uvlc escapes, scalable streams) through the parser, a first keyframe + finish and a fragmented init segment, (iv) every truncation, every single and (first 12 bytes) double boundary-byte substitution of {n_ex} valid exemplars; stateful: every Muxer method in 7 lifecycle states (+ after a failed finish) with every argument tuple over a 14-value f64 alphabet, 6 video / 6 audio payload shapes and integer extremes, each followed by finish, over {n_mc} configurations (dimension, frame-rate, sample-rate, channel, title, creation-time and language extremes); FragmentedMuxer: every call sequence of length <= {fdepth} over 70 calls (64 pts/dts pairs over u64 extremes) on {n_fc} FragmentConfig values incl. timescale 0 and empty / 70000-byte parameter sets; builder parameter product; ADTS error values; 12 creation times up to u64::MAX in child processes with a 5 s limit; every day from 1970-01-01 to 9999-12-31 at its first, middle and last second as creation time (16 child processes). Oracle: no unwind (catch_unwind, overflow checks and debug assertions on), no stall. distinct_nontrivial counts distinct (stateless entry point, input length class, return class) triples observed plus entry points registered.", fns.len()),
             bound: format!("string length {slen}, AV1 payload bits {bits}, fragmented depth {fdepth}"),
             exhaustive: true,
             assumptions: vec!["functions whose documented purpose is to panic (assert_invariant! with a false condition, contract_test with a missing invariant) are exempt".into(), "allocation failure aborts the process and is out of scope (no input above 70000 bytes is used)".into()],
@@ -983,6 +1050,7 @@ pub fn replay(case: &Value) -> i32 {
             println!("replaying finish with creation time {s} (may take long on an unrepaired tree)");
             child_time(s).min(1)
         }
+        Some("E2-c12-days") => child_days(case["from"].as_u64().unwrap_or(0), case["to"].as_u64().unwrap_or(0)).min(1),
         Some("E2-c12-stateful") if case["cfg_idx"].is_u64() && case["call_idx"].is_u64() => {
             let cfgs = mcfgs();
             let Some(cfg) = cfgs.get(case["cfg_idx"].as_u64().unwrap() as usize) else { return 2 };
